@@ -215,10 +215,16 @@ def cache_ok(n_domain="self.cached"):
         # only glyphs of the default source are cached
         "cache.default-has-glyph": f"all(has_glyph({_L}, {_IDX}, n) for n in {n_domain})",
         # everything reachable from the cache exists (separates it from objects made later)
-        "cache.alive": f"all(allocated({V}) and allocated({V}.model) and all(allocated(m) for m in {V}.masters) and all(allocated(l) for l in {V}.model.origLocations)"
-        f" and all(allocated({V}.location_to_master[k]) for k in {V}.location_to_master) for n in {n_domain})",
+        "cache.alive": f"all(allocated({V}) and allocated({V}.model) for n in {n_domain})",
+        "cache.alive-masters": f"all(all(allocated(m) for m in {V}.masters) for n in {n_domain})",
+        "cache.alive-locations": f"all(all(allocated(l) for l in {V}.model.origLocations) for n in {n_domain})",
+        "cache.alive-filed": f"all(all(allocated({V}.location_to_master[k]) for k in {V}.location_to_master) for n in {n_domain})",
         "cache.math-glyphs": f"all(all({V}.masters[k].kind == 0 for k in range(len({V}.masters))) and all({V}.location_to_master[k].kind == 0 for k in {V}.location_to_master) for n in {n_domain})",
         "cache.axis-order": f"all({V}.model.axisOrder == self.axis_order and len({V}.model.origLocations) == len({V}.masters) and len({V}.masters) >= 1 for n in {n_domain})",
+        # the master-location shortcut of instance_at: every master is filed under the key of its own location, every key leads to a master at that location
+        "cache.keys-cover": f"all(all(lockey(items_of({V}.model.origLocations[b])) in {V}.location_to_master for b in range(len({V}.masters))) for n in {n_domain})",
+        "cache.keys-sound": f"all(all(0 <= {V}.witness[k] and {V}.witness[k] < len({V}.masters) and lockey(items_of({V}.model.origLocations[{V}.witness[k]])) == k"
+        f" and {V}.location_to_master[k] == {V}.masters[{V}.witness[k]] for k in {V}.location_to_master) for n in {n_domain})",
         # unless empty masters are dropped: one master per layer that has the glyph, in source order, wrapping THAT glyph at ITS normalized location
         "cache.pinned": f"all(implies(not drops({_L}, {_IDX}, n), len({V}.masters) == {_nh(f'len({_L})')} and all(implies(has_glyph({_L}, a, n),"
         f" 0 <= {_nh('a')} and {_nh('a')} < len({V}.masters)"
@@ -321,6 +327,8 @@ def _ggi_cases(rng, n):
             for k in range(nloc):
                 out.append({
                     "family": fam, "glyph": name, "loc": k, "round": rng.random() < 0.5, "empty_s": name in ("s", "e") and rng.random() < 0.5,
+                    # `s` without outline in the master of this index (the first source is not always the default one)
+                    "empty_s_index": rng.choice([None, 0, 1, 2]) if name == "s" else None,
                     # history: which (glyph, location index) instances were generated from the same Instantiator before
                     "warm": [[rng.choice(c19.GLYPHS), rng.randrange(nloc)] for _ in range(rng.choice([0, 0, 1, 3]))] + ([[name, rng.randrange(nloc)]] if rng.random() < 0.5 and name != "not.there" else []),
                 })
@@ -333,7 +341,7 @@ def rt_instantiator(d):
 
     from ufo2ft.instantiator import Instantiator
 
-    ds = c19.rt_designspace(d["family"], empty_s=d.get("empty_s", False), extra_glyph=d.get("glyph") == "only.here")
+    ds = c19.rt_designspace(d["family"], empty_s=d.get("empty_s", False), extra_glyph=d.get("glyph") == "only.here", empty_s_index=d.get("empty_s_index"))
     inst = Instantiator.from_designspace(ds, round_geometry=d["round"])
     locs = rt_locations(ds)
     full = lambda l: inst.normalize({**inst.default_design_location, **l})  # noqa: E731
@@ -355,3 +363,106 @@ def _ggi_build(d):
 CONTRACTS["ufo2ft.instantiator:Instantiator.generate_glyph_instance#into"].runtime = Runtime(
     _ggi_cases, _ggi_build, call=lambda fn, a: fn(a["self"], a["glyph_name"], a["normalized_location"], output_glyph=a["output_glyph"])
 )
+
+
+# =====================================================================================================
+# 3. Instantiator.replace_source_layers: new layers in, every cached glyph model out
+# =====================================================================================================
+# Engine shim (requested in notes/C19.requests.md, item 11): `xs[:] = ys` (FULL slice, no bounds, no step) replaces the whole content of
+# the list in place.  For a list held in a heap field / local with value semantics that is the assignment of the new value to the same
+# holder (the way the engine already treats `xs.append(..)` / `xs.clear()` on such holders); every other slice stays unsupported.
+from pyvc.stmts import StmtMixin as _StmtMixin  # noqa: E402
+
+if not getattr(_StmtMixin.assign_target, "_c19_shim", False):
+    import ast as _ast
+
+    _orig_assign_target = _StmtMixin.assign_target
+
+    def _assign_target(self, t, v, st, node, mutate=False):
+        if isinstance(t, _ast.Subscript) and isinstance(t.slice, _ast.Slice) and t.slice.lower is None and t.slice.upper is None and t.slice.step is None:
+            recv = self.eval(t.value, st)
+            if isinstance(recv.ty, T.List) and not recv.is_py:
+                from pyvc.core import coerce
+
+                if isinstance(t.value, _ast.Name):
+                    self.check_alias(t.value.id, st, node)
+                return _orig_assign_target(self, t.value, coerce(v, recv.ty), st, node, mutate=True)
+        return _orig_assign_target(self, t, v, st, node, mutate)
+
+    _assign_target._c19_shim = True
+    _StmtMixin.assign_target = _assign_target
+    from pyvc.symex import Executor as _Executor
+
+    _Executor.assign_target = _assign_target
+
+
+@trusted("c19.zip_strict", "ufo2ft.util.zip_strict(a, b) (= zip(a, b, strict=True)): the pairs (a0, b0), (a1, b1), ...; ValueError iff the lengths differ")
+def _zip_strict(ex, st, args, kwargs, node):
+    from pyvc import models
+
+    if len(args) != 2 or kwargs:
+        raise Unsupported("zip_strict arity", node)
+    infos = [ex.iter_info(a, st, node) for a in args]
+    if any(i.kind != "indexed" for i in infos):
+        raise Unsupported("zip_strict over this iterable", node)
+    ex.safety(st, infos[0].n == infos[1].n, "ValueError", node)
+    return models.BUILTIN_MODELS["builtins.zip"].model(ex, st, args, kwargs, node)
+
+
+def _ref(qual, real=None):
+    from pyvc.symex import FuncRef
+
+    class R(FuncRef):
+        def __call__(self, *a, **k):
+            return real(*a, **k)
+
+    return R(None, qual)
+
+
+contract(
+    "ufo2ft.instantiator:Instantiator.replace_source_layers",
+    props=["C19", "C09"],
+    params={"self": Ref("Instantiator"), "new_layers": List(Ref("Layer"))},
+    globals={"zip_strict": _ref("c19.zip_strict", zip), **_ACCESSORS},
+    raises={"ValueError": f"len(new_layers) != len({_L})"},
+    ensures={
+        # same locations, in the same order, each with its new layer
+        "layers-replaced": f"len({_L}) == len(old({_L})) and all({_L}[a][0] is old({_L})[a][0] and {_L}[a][1] is new_layers[a] for a in range(len(new_layers)))",
+        # NO cached glyph model survives, whatever objects were handed in (the same layer objects edited in place included):
+        # the models hold copies (MathGlyph) of the OLD glyph data
+        "cache-cleared": "all(False for n in self.cached) and len(self.glyph_mutators) == 0",
+        # ... which (re-)establishes the cache invariant for the new layers
+        **cache_ok(),
+        "rest-unchanged": f"self.axis_bounds == old(self.axis_bounds) and self.round_geometry == old(self.round_geometry) and {_IDX} == old({_IDX})",
+    },
+    canaries={"keeps-the-layers": f"all({_L}[a][1] is old({_L})[a][1] for a in range(len(new_layers)))"},
+    modifies=["Instantiator.source_layers", "Instantiator.glyph_mutators"],
+)
+
+
+def _rsl_cases(rng, n):
+    out = []
+    for fam in c19.FAMILIES:
+        for mode in ("same-objects", "copies", "edited-in-place", "too-few", "too-many"):
+            out.append({"family": fam, "mode": mode, "round": False, "glyph": "a", "loc": 0, "warm": [[rng.choice(c19.GLYPHS), rng.randrange(8)] for _ in range(rng.choice([0, 2, 4]))]})
+    rng.shuffle(out)
+    return out[:n]
+
+
+def _rsl_build(d):
+    ds, inst, _ = rt_instantiator(d)
+    layers = [glyphs for _, glyphs in inst.source_layers]
+    if d["mode"] == "copies":
+        layers = [dict(g) for g in layers]
+    elif d["mode"] == "edited-in-place":
+        for g in layers:
+            if "a" in g:
+                g["a"].width += 10
+    elif d["mode"] == "too-few":
+        layers = layers[:-1]
+    elif d["mode"] == "too-many":
+        layers = layers + [dict(layers[0])]
+    return {"self": inst, "new_layers": layers}
+
+
+CONTRACTS["ufo2ft.instantiator:Instantiator.replace_source_layers"].runtime = Runtime(_rsl_cases, _rsl_build)
